@@ -105,10 +105,10 @@ rc::Gen<uint64_t> gen_component(int64_t lo_cell, int64_t hi_cell, bool open_doma
     );
 }
 
-template <class R, size_t N>
+template <class R, size_t N, class IdxT = long>
 struct OverIdentity {
-    using B = cb::nearest_neighbour<cb::identity<cv::vector_d<long, N>>, cv::vector_d<R, N>>;
-    static std::string name() { return std::string("nn/identity<long>/N=") + std::to_string(N) + "/R=" + tname<R>(); }
+    using B = cb::nearest_neighbour<cb::identity<cv::vector_d<IdxT, N>>, cv::vector_d<R, N>>;
+    static std::string name() { return std::string("nn/identity<") + tname<IdxT>() + ">/N=" + std::to_string(N) + "/R=" + tname<R>(); }
     static Verdict run(const Case & c)
     {
         covfie::field<B> f(pack(std::monostate{}, std::monostate{}));
@@ -159,6 +159,9 @@ struct OverIdentity {
                 case 5: c = sizeof(R) == 8 ? (int64_t(1) << 53) : (int64_t(1) << 25); break;
                 case 6: c = -(int64_t(1) << 24); break;
                 default: c = sizeof(R) == 8 ? (int64_t(1) << 31) : 1000;
+            }
+            if (sizeof(IdxT) == 4 && (c > (int64_t(1) << 30) || c < -(int64_t(1) << 30))) {
+                c = 1 << 20;   // the rounded coordinate must be representable in the backend's 32-bit coordinate type
             }
             return gen_component<R>(c - 40, c + 40, false);
         });
@@ -304,6 +307,8 @@ void register_all()
     OverIdentity<double, 2>::reg();
     OverIdentity<double, 3>::reg();
     OverIdentity<double, 4>::reg();
+    OverIdentity<float, 2, int>::reg();       // 32-bit lattice coordinates
+    OverIdentity<double, 3, int>::reg();
     OverArray<float, 1, float>::reg();
     OverArray<float, 2, double>::reg();
     OverArray<float, 3, float>::reg();
